@@ -1,1 +1,95 @@
-/- C15 — property theorems (stub: not built yet) -/
+import Rivaas.Lemmas.C15Final
+/-
+C15 — Response compression is transparent.
+
+Model: `Model/HttpBase` (net/http's response writer), `Model/Compress` (the middleware as it is
+now), `Model/CompressAsIs` (as it was shipped).  Oracle: `Spec/Compress`.  The coupling relation
+and its preservation lemmas are in `Lemmas/C15*.lean`; this file holds the property theorems.
+
+All statements quantify over every sniffing function `sn` (http.DetectContentType is a parameter),
+every configuration, request path, Accept-Encoding string and handler program.
+-/
+namespace Rivaas.C15
+open Rivaas.Http Rivaas.Compress Rivaas.CompressSpec
+
+theorem lemma_runWith_eq (sn : Sniff) (cfg : Cfg) (path ae : Bytes) (ops : List Op) :
+    runWith sn cfg path ae ops =
+      if (active cfg path ae).isEmpty then
+        { panicked := (runPlain sn ops).1.panicked, resp := (runPlain sn ops).1.resp,
+          decoded := some (runPlain sn ops).1.resp.body, outs := (runPlain sn ops).2 }
+      else respOf sn (finalCW sn cfg (active cfg path ae) ops).1 (finalCW sn cfg (active cfg path ae) ops).2 := by
+  unfold runWith respOf
+  rfl
+
+theorem lemma_safe_true (os : List Op) (h : os.any isPanicOp = false) : Safe true os := by
+  induction os with
+  | nil => trivial
+  | cons o os ih =>
+    simp only [List.any_cons, Bool.or_eq_false_iff] at h
+    refine ⟨fun e => ?_, ?_⟩
+    · rw [e] at h; simp [isPanicOp] at h
+    · simpa using ih h.2
+
+theorem lemma_safe_of_not_midstream (ops : List Op) (h : panicMidstream ops = false) : Safe false ops := by
+  induction ops with
+  | nil => trivial
+  | cons o os ih =>
+    cases o with
+    | setH k vs => exact ⟨fun _ => rfl, by simpa [isBodyOp, panicMidstream] using ih (by simpa [panicMidstream] using h)⟩
+    | delH k => exact ⟨fun _ => rfl, by simpa [isBodyOp, panicMidstream] using ih (by simpa [panicMidstream] using h)⟩
+    | writeHeader c => exact ⟨fun _ => rfl, by simpa [isBodyOp, panicMidstream] using ih (by simpa [panicMidstream] using h)⟩
+    | panic => exact ⟨fun _ => rfl, by simpa [isBodyOp, panicMidstream] using ih (by simpa [panicMidstream] using h)⟩
+    | write d =>
+      refine ⟨fun e => Op.noConfusion e, ?_⟩
+      simp only [panicMidstream] at h
+      simpa [isBodyOp] using lemma_safe_true os h
+    | copy cs =>
+      refine ⟨fun e => Op.noConfusion e, ?_⟩
+      simp only [panicMidstream] at h
+      simpa [isBodyOp] using lemma_safe_true os h
+    | flush =>
+      refine ⟨fun e => Op.noConfusion e, ?_⟩
+      simp only [panicMidstream] at h
+      simpa [isBodyOp] using lemma_safe_true os h
+
+/-- **C15, with the one recorded exclusion.**  For every sniffing function, configuration, path,
+    Accept-Encoding and handler program with acceptable status codes in which no panic follows a
+    body operation: the exchange with the middleware is transparent. -/
+theorem transparent_partial (sn : Sniff) (cfg : Cfg) (path ae : Bytes) (ops : List Op)
+    (hv : ∀ o ∈ ops, OpValid o) (hD : panicMidstream ops = false) :
+    Transparent (runWith sn cfg path ae ops) (runPlain sn ops) := by
+  rw [lemma_runWith_eq]
+  by_cases ha : (active cfg path ae).isEmpty = true
+  · simp only [ha, if_true]
+    exact ⟨rfl, rfl, fun _ _ _ _ => rfl, rfl, rfl⟩
+  · simp only [ha]
+    have henc : active cfg path ae ≠ [] := by
+      intro e; rw [e] at ha; exact ha rfl
+    have hs := lemma_safe_of_not_midstream ops hD
+    obtain ⟨⟨seen', hinv⟩, houts⟩ := lemma_fold sn ops false _ _ hv hs (lemma_init sn cfg _ henc)
+    unfold finalCW runPlain
+    simp only
+    rw [houts]
+    exact lemma_close_transparent sn seen' _ _ _ hinv
+
+/-- **C15 on the statement's own domain** (programs of header operations, WriteHeader, Write,
+    io.Copy and Flush — no panic): full strength, no exclusion. -/
+theorem transparent (sn : Sniff) (cfg : Cfg) (path ae : Bytes) (ops : List Op)
+    (hv : ∀ o ∈ ops, OpValid o) (hnp : ops.any isPanicOp = false) :
+    Transparent (runWith sn cfg path ae ops) (runPlain sn ops) := by
+  apply transparent_partial sn cfg path ae ops hv
+  clear hv
+  induction ops with
+  | nil => rfl
+  | cons o os ih =>
+    simp only [List.any_cons, Bool.or_eq_false_iff] at hnp
+    cases o with
+    | setH k vs => simpa [panicMidstream] using ih hnp.2
+    | delH k => simpa [panicMidstream] using ih hnp.2
+    | writeHeader c => simpa [panicMidstream] using ih hnp.2
+    | panic => simp [isPanicOp] at hnp
+    | write d => simpa [panicMidstream] using hnp.2
+    | copy cs => simpa [panicMidstream] using hnp.2
+    | flush => simpa [panicMidstream] using hnp.2
+
+end Rivaas.C15
